@@ -12,12 +12,14 @@ type VerifOrderedMapCBOR struct{ m *structFieldsCBOR }
 func VerifNewOrderedMapCBOR() *VerifOrderedMapCBOR {
 	return &VerifOrderedMapCBOR{m: newStructFieldsCBOR()}
 }
-func (o *VerifOrderedMapCBOR) Add(key int, val []byte) error { return o.m.Add(key, cbor.RawMessage(val)) }
-func (o *VerifOrderedMapCBOR) Get(key int) ([]byte, bool)    { v, ok := o.m.Get(key); return v, ok }
-func (o *VerifOrderedMapCBOR) Delete(key int)                { o.m.Delete(key) }
-func (o *VerifOrderedMapCBOR) Has(key int) bool              { return o.m.Has(key) }
-func (o *VerifOrderedMapCBOR) Keys() []int                   { return append([]int(nil), o.m.Keys...) }
-func (o *VerifOrderedMapCBOR) NumFields() int                { return len(o.m.Fields) }
+func (o *VerifOrderedMapCBOR) Add(key int, val []byte) error {
+	return o.m.Add(key, cbor.RawMessage(val))
+}
+func (o *VerifOrderedMapCBOR) Get(key int) ([]byte, bool) { v, ok := o.m.Get(key); return v, ok }
+func (o *VerifOrderedMapCBOR) Delete(key int)             { o.m.Delete(key) }
+func (o *VerifOrderedMapCBOR) Has(key int) bool           { return o.m.Has(key) }
+func (o *VerifOrderedMapCBOR) Keys() []int                { return append([]int(nil), o.m.Keys...) }
+func (o *VerifOrderedMapCBOR) NumFields() int             { return len(o.m.Fields) }
 func (o *VerifOrderedMapCBOR) ToCBOR(em cbor.EncMode) ([]byte, error) {
 	return o.m.ToCBOR(em)
 }
